@@ -383,6 +383,16 @@ class CallMixin:
         sub = []
         res = list(self.call_func(fr, recv, [], {}, st, sub, e))
         exits.extend(sub)
+        return self._single(res, st, fr.qualname)
+
+    def ext_attribute(self, recv, key, st, exits, e):
+        """attribute read on an external object (assumed contract '<Obj>.@attr': may raise AttributeError)"""
+        sub = []
+        res = list(self.call_external(key, [recv], {}, st, sub, e))
+        exits.extend(sub)
+        return self._single(res, st, key)
+
+    def _single(self, res, st, what):
         if len(res) == 1:
             if res[0][0] is not st:
                 # state was copied inside: transplant
@@ -406,7 +416,7 @@ class CallMixin:
                 out = z3.If(cnd, t, out)
             st.assume(z3.Or([c for c, _ in conds]))
             return V(ty, out)
-        raise Unsupported(f'property {fr.qualname} forks')
+        raise Unsupported(f'property {what} forks')
 
     def call_dunder(self, recv, name, args, st, exits, e):
         ci = self.src.find_class(recv.ty.cls)
